@@ -218,6 +218,11 @@ func (d *regDriver) Call(ip *absint.Interp, site ssa.CallInstruction, args []abs
 }
 
 func (d *regDriver) Field(ip *absint.Interp, obj *absint.Tok, name string, typ types.Type) absint.Value {
+	if obj != d.recv {
+		// the protocol is payload-agnostic: a registry that looks inside the definitions / factories it stores
+		// behaves differently for different components, which the per-name token model cannot see
+		panic(&absint.Undecided{Msg: "the registry inspects field " + name + " of a stored value (" + obj.ID + "): its behaviour depends on the payload, which the typestate model does not cover"})
+	}
 	return nil // default: fresh token named recv.<field>
 }
 
@@ -402,7 +407,7 @@ func newRegDriver(c *core.Ctx, T *types.Named, ops []regOp) *regDriver {
 
 func c04(c *core.Ctx, r *core.Report) {
 	ro := c.Roles()
-	r.Explanation = "C04 singleton cache protocol as typestate: every receiver field used as a map/set cell becomes an abstract cell for one tracked name; the bodies of AddSingletonFactory, AddSingleton, GetSingleton, GetSingletonOrCreateByFactory and IsSingletonCurrentlyInCreation are interpreted (SSA, symbolic tokens, cell primitives answered by the model, same-receiver helpers inlined, logging effect-free); every history a factory can issue for one name - lookups with/without early references, in-creation queries, create begin, add factory (<=1 per creation), create end ok/fail, early factory ok/fail - is explored to a fixpoint over (cell contents, monitor) with bounded tokens (2 creations, 3 early runs) and checked against observational assertions A1 one early reference / A2 in-creation mark / A3 published is final / A4 clean failure / A5 early-factory error. R1: every cell operation is keyed by the method's name parameter (makes the per-name projection sound). Decides every single-name history; does not decide custom registries or the atomicity of sync.Map (C20)."
+	r.Explanation = "C04 singleton cache protocol as typestate: every receiver field used as a map/set cell becomes an abstract cell for one tracked name; the bodies of AddSingletonFactory, AddSingleton, GetSingleton, GetSingletonOrCreateByFactory and IsSingletonCurrentlyInCreation are interpreted (SSA, symbolic tokens, cell primitives answered by the model, same-receiver helpers inlined, logging effect-free); every history a factory can issue for one name - lookups with/without early references, in-creation queries, create begin, add factory (<=1 per creation), create end ok/fail, early factory ok/fail - is explored to a fixpoint over (cell contents, monitor) with bounded tokens (2 creations, 3 early runs) and checked against observational assertions A1 one early reference / A2 in-creation mark / A3 published is final / A4 clean failure / A5 early-factory error. R1: every cell operation is keyed by the method's name parameter (makes the per-name projection sound). R3: the factory side of the protocol that the alphabet relies on - the accessor consults the cache (early references allowed) before creating, the early factory is registered exactly under the un-narrowed exposure condition and before any dependency is resolved, the creator's own lookup does not allow creating an early reference. Decides every single-name history; does not decide custom registries or the atomicity of sync.Map (C20)."
 	r.Assumptions = []string{"sync2.Map / list.Set primitives behave as a map / set per key (delegation checked in C20.R4)", "operations on other names do not touch this name's cells (C04.R1)", "the factory issues at most one AddSingletonFactory per creation and does not re-enter creation of the same name while it is in creation (C02.R1/R3)"}
 	impls := c.Implementors(c.Iface("container", "SingletonComponentRegistry"))
 	r.Count("registry_impls", len(impls))
@@ -417,6 +422,23 @@ func c04(c *core.Ctx, r *core.Report) {
 	pub := c.CallSites(func(com *ssa.CallCommon) bool { return core.IsInvoke(com, ro.SCRAddSingleton) })
 	if len(pub) > 0 {
 		r.Undecided("C04.R0", "alphabet:AddSingleton", c.Pos(pub[0].Pos()), "AddSingleton now has an in-scope caller outside the registry: the explored alphabet no longer covers what the factory can issue")
+	}
+	// the factory's side of the protocol: the machine above assumes that a name in creation is never created again
+	// and that at most one early factory is registered per creation, before anything can look the name up
+	if l := findLifecycle(c, r, "C04.R3"); l != nil {
+		accessorRules(c, r, "C04.R3", l)
+		exposureStructure(c, r, l, "C04.R3", "C04.R3")
+		rs, _, und := exposerTable(c, l)
+		if und != "" {
+			r.Undecided("C04.R3", "exposer-table", c.FnPos(l.exposer), "abstract interpretation left the model: "+und)
+		} else {
+			rs.report(c, r, l.exposer, func(row string) string {
+				if row == "expose-iff-condition" || row == "lookup-after-init" {
+					return "C04.R3"
+				}
+				return ""
+			}, "exposer-table@"+core.FnName(l.exposer), exposerRows)
+		}
 	}
 	for _, T := range impls {
 		c04Explore(c, r, T)
